@@ -16,10 +16,13 @@ import MenelausVerif.Driver.ErrDetectors
 import MenelausVerif.Driver.PCACD
 import MenelausVerif.Driver.Adwin
 import MenelausVerif.Driver.HDM
+import MenelausVerif.Driver.KdqTree
+import MenelausVerif.Driver.KdqDetect
+import MenelausVerif.Driver.Validate
 open MV.Driver
 
 def registry : List (List String → Option Machine) :=
-  [mkElection, mkLifecycle, mkSequential, mkEnsemble, mkNNSP, mkMD3, mkInject, mkLFR, mkErrDetectors, mkPCACD, mkAdwin, mkHDM]
+  [mkElection, mkLifecycle, mkSequential, mkEnsemble, mkNNSP, mkMD3, mkInject, mkLFR, mkErrDetectors, mkPCACD, mkAdwin, mkHDM, mkKdqTree, mkKdqDetect, mkValidate]
 
 def mkMachine (ts : List String) : Option Machine :=
   registry.findSome? (fun f => f ts)
